@@ -7,7 +7,7 @@ from . import datacases as D
 from .c05 import obs_term
 from .c03 import hist_roots
 
-THEOREMS = ["C18_write_old", "C18_removed_panics"]
+THEOREMS = ["C18_write_old", "C18_removed_panics", "C18_min_safe"]
 HEADER = D.HEADER
 
 
